@@ -114,4 +114,19 @@ theorem src_eq_iff (a b : TI) : Src.Time.eq a b = true ↔ a = b := by
 theorem src_eq_imp_hash (a b : TI) (h : Src.Time.eq a b = true) : Src.Time.hashKey a = Src.Time.hashKey b := by
   rw [hashKey_eq, hashKey_eq]; exact TI.eq_imp_hash a b (by rwa [eq_eq] at h)
 
+/-- the translated `intersection` does not depend on the order of its operands -/
+theorem src_intersection_comm (a b : TI) (ha : TI.WF a) (hb : TI.WF b) :
+    Src.Time.intersection a b = Src.Time.intersection b a := by
+  rw [intersection_eq a b ha hb, intersection_eq b a hb ha, TI.intersection_comm a b ha hb]
+
+/-- the translated `union` is commutative and associative on well-formed operands -/
+theorem src_union_comm (a b : TI) (ha : TI.WF a) (hb : TI.WF b) :
+    Src.Time.union a b = Src.Time.union b a := by
+  rw [union_eq a b ha hb, union_eq b a hb ha, TI.union_comm]
+
+theorem src_issubset_trans (a b c : TI) (ha : TI.WF a) (hb : TI.WF b) (hc : TI.WF c)
+    (h1 : Src.Time.issubset a b = true) (h2 : Src.Time.issubset b c = true) :
+    Src.Time.issubset a c = true := by
+  rw [issubset_eq] at *; exact TI.issubset_trans a b c ha hb hc h1 h2
+
 end GV.C06Src
